@@ -93,14 +93,11 @@ func (e *factEngine) cellFacts(cell *ssa.Alloc, load *ssa.UnOp, depth int) factS
 				continue
 			}
 			for si, succ := range b.Succs {
-				if len(succ.Preds) != 1 || len(b.Succs) != 2 || b.Succs[0] == b.Succs[1] {
+				if len(b.Succs) != 2 || b.Succs[0] == b.Succs[1] {
 					continue
 				}
-				// every path from s to the load goes through succ
-				around, _ := core.Reaches(s, func(x ssa.Instruction) bool { return x == ssa.Instruction(load) }, func(x ssa.Instruction) bool {
-					return x.Block() == succ || isStore(x)
-				})
-				if around || !reachesBlock(succ, load) {
+				// every path from s to the load takes the edge b -> succ
+				if s.Block() == load.Block() || edgeAvoidable(s.Block(), load.Block(), b, succ, stores) || !reachesBlock(succ, load) {
 					continue
 				}
 				e.fromCond(iff.Cond, si == 0, guardLoad, fs)
@@ -114,6 +111,36 @@ func (e *factEngine) cellFacts(cell *ssa.Alloc, load *ssa.UnOp, depth int) factS
 		}
 	}
 	return acc
+}
+
+// edgeAvoidable: can control get from block `from` to block `to` without
+// taking the edge eb -> es and without passing a block (other than `from`)
+// that stores into the cell again?
+func edgeAvoidable(from, to, eb, es *ssa.BasicBlock, stores []*ssa.Store) bool {
+	storeBlk := map[*ssa.BasicBlock]bool{}
+	for _, s := range stores {
+		storeBlk[s.Block()] = true
+	}
+	seen := map[*ssa.BasicBlock]bool{from: true}
+	work := []*ssa.BasicBlock{from}
+	for len(work) > 0 {
+		b := work[len(work)-1]
+		work = work[:len(work)-1]
+		for _, s := range b.Succs {
+			if b == eb && s == es {
+				continue
+			}
+			if s == to {
+				return true
+			}
+			if seen[s] || storeBlk[s] {
+				continue
+			}
+			seen[s] = true
+			work = append(work, s)
+		}
+	}
+	return false
 }
 
 func reachesBlock(from *ssa.BasicBlock, target ssa.Instruction) bool {
